@@ -907,7 +907,7 @@ class Exec(object):
         raise Unsupported('load %r' % (a,))
 
     def elem_load_checked(self, st, etid, arr_, absidx):
-        if self.track_init and self.is_scalar(etid) and ('INIT:' + self.elem_key(etid)) in self.init_types:
+        if self.track_init and not getattr(self, 'in_spec', 0) and self.is_scalar(etid) and ('INIT:' + self.elem_key(etid)) in self.init_types:
             ih = self.heap_get(st, 'INIT:' + self.elem_key(etid), arr(arr(BOOL)))
             self.oblige(st, 'init-read', self.cur_src_detail(), select(select(ih, arr_), absidx), props={'C05'})
         return self.elem_load(st, etid, arr_, absidx)
